@@ -29,7 +29,7 @@ def schedules(job, plan):
     push = list(head)
     if rng.chance(.35):
         push.append("stale %d" % rng.choice([1, 37, 300, 100000]))
-    push.append("eoistyle %d" % rng.below(5))  # how end-of-input is said and how the drain calls look (harness/cr/trace.c after_end)
+    push.append("eoistyle %d" % rng.below(6))  # how end-of-input is said and how the drain calls look (harness/cr/trace.c after_end)
     push.append("nullout %d" % rng.below(2))    # a call that asks for 0 frames passes out == NULL (soxr.h allows it)
     cap = [10 ** 9, 60, 3000, 10 ** 9][rng.below(4)]
     for i in range(rng.choice([3, 10, 40, 150])):
